@@ -47,8 +47,11 @@ const (
 
 // Hooks selects the pass-through hooks and rewriters to install.
 type Hooks struct {
-	LoadPre       bool `json:"loadPre,omitempty"`
-	LoadPost      bool `json:"loadPost,omitempty"`
+	LoadPre  bool `json:"loadPre,omitempty"`
+	LoadPost bool `json:"loadPost,omitempty"`
+	// LoadPostLean: the load hook hands plain values straight back and calls doCompute only for computed values (both
+	// spellings pass every value through unchanged)
+	LoadPostLean  bool `json:"loadPostLean,omitempty"`
 	Store         bool `json:"store,omitempty"`
 	SpanRewrite   bool `json:"spanRewrite,omitempty"`
 	DetailRewrite bool `json:"detailRewrite,omitempty"`
@@ -64,6 +67,9 @@ func installHooks(vm *ds.Context, h Hooks) {
 	}
 	if h.LoadPost {
 		vm.Config.HookValueLoadPost = func(ctx *ds.Context, name string, cur *ds.VMValue, doCompute func(*ds.VMValue) *ds.VMValue, detail *ds.BufferSpan) *ds.VMValue {
+			if h.LoadPostLean && cur != nil && cur.TypeId != ds.VMTypeComputedValue {
+				return cur
+			}
 			return doCompute(cur)
 		}
 	}
